@@ -1835,6 +1835,9 @@ impl TypeChecker {
 
             (Type::Tuple(a), Type::Tuple(b)) if a.len() == b.len() => {
                 for (a, b) in a.iter().zip(b.iter()) {
+                    // Elements that are still unknown are checked again when they become known.
+                    self.add_constraint(*a, span, Constraint::Add(*b));
+                    self.add_constraint(*b, span, Constraint::Add(*a));
                     self.add(span, ctx, *a, *b)?;
                 }
                 Ok(())
@@ -1860,6 +1863,9 @@ impl TypeChecker {
 
             (Type::Tuple(a), Type::Tuple(b)) if a.len() == b.len() => {
                 for (a, b) in a.iter().zip(b.iter()) {
+                    // Elements that are still unknown are checked again when they become known.
+                    self.add_constraint(*a, span, Constraint::Sub(*b));
+                    self.add_constraint(*b, span, Constraint::Sub(*a));
                     self.sub(span, ctx, *a, *b)?;
                 }
                 Ok(())
@@ -1885,6 +1891,9 @@ impl TypeChecker {
 
             (Type::Tuple(a), Type::Tuple(b)) if a.len() == b.len() => {
                 for (a, b) in a.iter().zip(b.iter()) {
+                    // Elements that are still unknown are checked again when they become known.
+                    self.add_constraint(*a, span, Constraint::Mul(*b));
+                    self.add_constraint(*b, span, Constraint::Mul(*a));
                     self.mul(span, ctx, *a, *b)?;
                 }
                 Ok(())
